@@ -447,7 +447,7 @@ func c09(c *Ctx) {
 			// announced id: the value given to PutUint16 is phi(0..., load connId.Send in the go block)
 			var idv ssa.Value
 			core.Calls(handler, func(ci ssa.CallInstruction) {
-				if strings.HasSuffix(core.CalleeID(ci), ".PutUint16") {
+				if strings.HasSuffix(core.CalleeID(ci), ".PutUint16") || strings.HasSuffix(core.CalleeID(ci), ".AppendUint16") {
 					a := ci.Common().Args
 					idv = a[len(a)-1]
 				}
